@@ -93,7 +93,8 @@ def load_known():
 
 
 def write_evidence(prop, tier, seed, level, run, wall, nviol, explanation, extra=None):
-    os.makedirs(os.path.join(VERIF, 'evidence'), exist_ok=True)
+    evdir = os.environ.get('VERIF_EVIDENCE_DIR') or os.path.join(VERIF, 'evidence')
+    os.makedirs(evdir, exist_ok=True)
     insts = {}
     for r in run.results:
         insts.setdefault((r['rule'], r['instance']), r)
@@ -129,7 +130,7 @@ def write_evidence(prop, tier, seed, level, run, wall, nviol, explanation, extra
         cov.update(extra)
     ev = {'property_id': prop, 'tier': tier, 'seed': seed, 'level': level, 'coverage': cov,
           'assumptions': run.assumptions, 'wall_s': round(wall, 2), 'violations': nviol}
-    with open(os.path.join(VERIF, 'evidence', prop + '.json'), 'w') as fh:
+    with open(os.path.join(evdir, prop + '.json'), 'w') as fh:
         json.dump(ev, fh, indent=1, default=str)
 
 
@@ -216,10 +217,11 @@ def main():
             print('ANALYSIS-BROKEN property=%s %s/%s %s %s' % (prop, r['rule'], r['instance'], r['where'], r['msg']))
         code = 2
     if new_viol:
-        os.makedirs(os.path.join(VERIF, 'evidence', 'replay'), exist_ok=True)
+        evdir = os.environ.get('VERIF_EVIDENCE_DIR') or os.path.join(VERIF, 'evidence')
+        os.makedirs(os.path.join(evdir, 'replay'), exist_ok=True)
         for i, r in enumerate(new_viol):
-            path = os.path.join('evidence', 'replay', '%s-%d.json' % (prop, i))
-            with open(os.path.join(VERIF, path), 'w') as fh:
+            path = os.path.join(os.path.relpath(evdir, VERIF) if evdir.startswith(VERIF) else evdir, 'replay', '%s-%d.json' % (prop, i))
+            with open(os.path.join(VERIF, path) if not os.path.isabs(path) else path, 'w') as fh:
                 json.dump({'property': prop, 'rule': r['rule'], 'instance': r['instance'], 'where': r['where'],
                            'msg': r['msg'], 'detail': r['detail']}, fh, indent=1, default=str)
             print('VIOLATION property=%s replay=%s' % (prop, path))
